@@ -69,6 +69,10 @@ def enum_neighbor():
     # import: the peer is the source's remote address
     for src in (SRC_E, SRC_6, SRC_L):
         out.append(one('enum_neighbor', [[1, 1, [ents[1], ents[8]]]], [[1, 1, 0]], [ev(R0, [], d=0, src=src), ev(R0, [], d=1, src=src, peer=ip4(10, 0, 0, 9))]))
+    # import: exactly the remote address / exactly the local address of the source (they must not be confused)
+    for e in ([ip4(10, 0, 0, 1), 32], [ip4(10, 0, 0, 254), 32], [ip6(V6BASE | 1), 128], [ip6(V6BASE | 2), 128]):
+        for opt in (0, 2):
+            out.append(one('enum_neighbor_import', [[1, 1, [e]]], [[1, 1, opt]], [ev(R0, [], d=0, src=src, peer=ip4(10, 9, 9, 9)) for src in (SRC_E, SRC_I, SRC_6, SRC_L)]))
     return out
 
 # ---------------------------------------------------------------- as-path sets
@@ -95,9 +99,9 @@ def enum_aspath():
     # every general pattern of the vocabulary against every segment type and separator
     rpaths = [[(2, [65001])], [(2, [65001, 65002])], [(1, [65001, 65002])], [(3, [65001]), (2, [65002])], [(4, [65001, 65002])], [(2, [65004, 65002]), (2, [65001])],
               [(2, [])], [], [(2, [65001]), (2, [])], [(3, [65000, 65004]), (1, [65001, 65003]), (2, [65002])], [(2, [165001])], [(2, [65001, 650020])],
-              [(5, [65001])], [(2, [99999999999 & U32])]]
+              [(5, [65001])], [(2, [99999999999 & U32])], [(2, [65001]), (2, [99999])]]
     rroutes = [ev(R0, [aspath_attr(p)]) for p in rpaths] + [ev(R0, [])]
-    for i in range(401, 413):
+    for i in range(401, 419):
         for opt in range(3):
             out.append(one('enum_aspath_regex', [[2, 1, [rx_entry(i)]]], [[2, 1, opt]], rroutes))
     return out
@@ -334,6 +338,19 @@ def enum_crud():
                       [ev(R0, [aspath_attr([(2, [65001])]), comm_attr([C[1], 5])]), ev(n4(10, 0, 0, 0, 8), [aspath_attr([(2, [65002])])], peer=ip4(10, 0, 0, 7)),
                        ev([4, 0, 4], [comm_attr([0xffffff04])]), ev([6, 0, 0, 8], [])]
                 out.append(mk('enum_crud_partial_delete', ops))
+    # partial delete with candidates that are NOT elements: same prefix with another range, another length, the other family's 0/0, a neighbour
+    # with another length, a range pattern with other bounds, a pattern of another kind; nothing may be removed
+    near = {0: [[[ip4(10, 0, 0, 0), 8], 8, 31], [[ip4(10, 0, 0, 0), 8], 9, 32], [[ip4(10, 0, 0, 0), 9], 8, 32], [[ip4(0, 0, 0, 0), 0], 0, 9], [[ip6(0), 0], 0, 8], [[ip6(V6BASE), 32], 32, 63]],
+            1: [[ip4(10, 0, 0, 1), 31], [ip4(10, 0, 0, 0), 25], [ip6(V6BASE), 33], [ip4(10, 0, 0, 2), 32]],
+            2: [[0, 0, 65002, 0], [0, 6, 65001, 65002], [0, 2, 65001, 0], [0, 4, 65001, 65003], rx_entry(402), rx_entry(407)],
+            3: [[0, C[2], 0], [0, C[0] + 1, 1], rx_entry(102), rx_entry(103), [2, 6, 0], [2, 7, 1]],
+            4: [rx_entry(203), rx_entry(205)], 5: [rx_entry(304)]}
+    for kind in range(6):
+        for cand in near[kind]:
+            opt = 0
+            ops = [[1, 0, [kind, 1, E[kind]]], [10], [2, 0, [kind, 1, [cand]]], [10], [3, 1, [[kind, 1, opt]], [2], NOACT()], [5, 1, [1]], [7, 0, 1, 1, [1]]] + probes + \
+                  [ev(n4(10, 0, 0, 0, 8), [aspath_attr([(2, [65002])])], peer=ip4(10, 0, 0, 7)), ev([4, 0, 4], [comm_attr([0xffffff02])]), ev([6, 0, 0, 8], [])]
+            out.append(mk('enum_crud_partial_delete_near', ops))
     return out
 
 def enum_crud_statements():
@@ -375,6 +392,11 @@ def enum_crud_policies():
                     [7, 0, 1, 2, [1]], probe, [5, 1, [2]], [6, 1, preserve, 0, [1]], [6, 1, preserve, 1, []], [7, 0, 0, 2, [2]], [6, 2, preserve, 1, []], [5, 2, [3]], [10],
                     [8, 1, [1], 0], probe, [6, 1, preserve, 0, [2, 9]], [10], [6, 1, preserve, 0, [1, 3]], [10], [6, 1, preserve, 1, []], [10], [6, 1, preserve, 1, []], [6, 9, preserve, 0, []],
                     [8, 0, [], 1], [6, 2, preserve, 1, []], [10], [4, 1, 1, [], [], NOACT()], [4, 2, 1, [], [], NOACT()], [4, 3, 1, [], [], NOACT()], [10]]
+        out.append(mk('enum_crud_policies', ops))
+    # two policies share a statement: deleting one of them (all / partial, statements not preserved) must keep the shared statement
+    for all_ in (1, 0):
+        ops = st + [[5, 1, [1, 2]], [5, 2, [2, 3]], [7, 0, 1, 2, [2]], probe, [6, 1, 0, all_, [1, 2]], [10], probe, [3, 2, [[6, 0, 1]], [], NOACT()], [4, 2, 1, [], [], NOACT()],
+                    [3, 1, [], [2], NOACT()], [10], [8, 1, [], 1], [6, 2, 0, 1, []], [10]]
         out.append(mk('enum_crud_policies', ops))
     # assignments: add accumulates (new first), duplicates refused, set replaces, delete by name / all / absent, import refuses next-hop actions
     ops = st + [[3, 4, [], [], act(nexthop=[1])], [5, 1, [1]], [5, 2, [2]], [5, 3, [3]], [5, 4, [4]]]
